@@ -670,16 +670,16 @@ func ctRun(s *ctStream) (out []ctMismatch, runs int) {
 }
 
 type ctReport struct {
-	Streams    int                     `json:"histories"`
-	Runs       int                     `json:"runs"`
-	Nontrivial int                     `json:"nontrivial"`
-	ByComp     map[string]int          `json:"byComp"`
-	Samples    map[string][]ctMismatch `json:"samples"`
-	Example    []json.RawMessage       `json:"example"`
-	ParseErr   int                     `json:"parseErrors"`
-	WithAsp    int                     `json:"streamsWithAspects"`
-	WithAspCall int                    `json:"streamsWithCallsInsideAspects"`
-	MultiAsp   int                     `json:"streamsWithSeveralAspectsOnOneJoinPoint"`
+	Streams     int                     `json:"histories"`
+	Runs        int                     `json:"runs"`
+	Nontrivial  int                     `json:"nontrivial"`
+	ByComp      map[string]int          `json:"byComp"`
+	Samples     map[string][]ctMismatch `json:"samples"`
+	Example     []json.RawMessage       `json:"example"`
+	ParseErr    int                     `json:"parseErrors"`
+	WithAsp     int                     `json:"streamsWithAspects"`
+	WithAspCall int                     `json:"streamsWithCallsInsideAspects"`
+	MultiAsp    int                     `json:"streamsWithSeveralAspectsOnOneJoinPoint"`
 }
 
 func calltracerCmd(args []string) int {
